@@ -390,6 +390,16 @@ func smallTrees() []treeGen {
 	leaves := []leafSpec{{"nil", nil}, {"t", true}, {"i1", 1}, {"f1", 1.0}, {"s", "s"}, {"i2", 2}, {"e", ""}}
 	var out []treeGen
 	out = append(out, treeGen{"L()", func() any { return NewList() }}, treeGen{"O()", func() any { return NewObject() }})
+	// empty containers as children (a copy must not share them either)
+	out = append(out,
+		treeGen{"L(L())", func() any { return NewList(NewList()) }},
+		treeGen{"L(O())", func() any { return NewList(NewObject()) }},
+		treeGen{"O(a=L())", func() any { return NewObject("a", NewList()) }},
+		treeGen{"O(a=O())", func() any { return NewObject("a", NewObject()) }},
+		treeGen{"O(a=L(),b=O())", func() any { return NewObject("a", NewList(), "b", NewObject()) }},
+		treeGen{"L(L(),O(),i1)", func() any { return NewList(NewList(), NewObject(), 1) }},
+		treeGen{"O(a=O(a=L()))", func() any { return NewObject("a", NewObject("a", NewList())) }},
+		treeGen{"L(L(L()))", func() any { return NewList(NewList(NewList())) }})
 	for _, a := range leaves {
 		a := a
 		out = append(out,
@@ -575,6 +585,29 @@ func c08Oracle(c *oracleCtx) {
 		{"Concat", func() any { return NewObject("m", NewList(NewList(1)).Concat(NewList(NewList(2)))) }},
 		{"NewListOf", func() any { return NewListOf(NewObject("a", 1), 2) }},
 		{"deep", func() any { return NewObject("a", NewList(NewObject("b", NewList(NewObject("c", 1))))) }},
+		// the same shapes reached through different operation histories (a cached summary of the content that one
+		// mutator forgets to refresh shows only on such a history)
+		{"hist:insert-mid", func() any { return NewList(1, "x", 2.5).Insert(1, NewList(7)) }},
+		{"hist:insert-mid-obj", func() any { return NewList(1, 2).Insert(1, NewObject("a", NewList(1))) }},
+		{"hist:insert-front", func() any { return NewList(1, 2).Insert(0, NewObject("a", 1)) }},
+		{"hist:insert-end", func() any { return NewList(1, 2).Insert(2, NewList(1)) }},
+		{"hist:replace", func() any { return NewList(1, 2, 3).Replace(1, NewList(NewObject("a", 1))) }},
+		{"hist:settf", func() any { return NewList(1, 2).SetTF("#1", NewObject("a", 1)).SetTF("#3#0", 5) }},
+		{"hist:delete-then-add", func() any { return NewList(NewList(1), 2, 3).Delete(0).Add(NewObject("a", NewList())) }},
+		{"hist:clear-add", func() any { return NewList(1, 2).Clear().Add(NewList(1), NewObject()) }},
+		{"hist:pop-insert", func() any { l := NewList(1, 2, 3); l.Pop(); return l.Insert(1, NewList(NewList())) }},
+		{"hist:from-slice-insert", func() any { return NewListFrom([]int{1, 2, 3}).Insert(2, NewObject("k", NewList(1))) }},
+		{"hist:listof-replace", func() any { return NewListOf(0, 3).Replace(0, NewList(1)) }},
+		{"hist:sort-insert", func() any { return NewList(3, 1, 2).Sort().Insert(1, NewList(9)) }},
+		{"hist:reverse-insert", func() any { return NewList(1, 2, 3).Reverse().Insert(2, NewObject("a", 1)) }},
+		{"hist:nested-in-obj", func() any {
+			return NewObject("l", NewList(1, 2).Insert(1, NewList(7)), "e", NewList(), "o", NewObject())
+		}},
+		{"hist:obj-set-over", func() any { return NewObject("a", 1, "b", 2).Set("a", NewList(1)).Set("b", NewObject()) }},
+		{"hist:obj-unset-set", func() any { return NewObject("a", NewList(1)).Unset("a").Set("a", NewObject("x", NewList())) }},
+		{"hist:obj-settf", func() any { return NewObject("a", 1).SetTF(".a.b#1", NewList()).SetTF(".c", NewObject()) }},
+		{"hist:merge", func() any { return NewObject("a", NewList(1)).Merge(NewObject("b", NewObject(), "c", NewList())) }},
+		{"hist:parsed", func() any { o, _ := ParseObject(`{"a":[],"b":{},"c":[[],{}],"d":[1,[2]]}`); return o }},
 	}
 	for _, tg := range append(trees, extra...) {
 		tg := tg
